@@ -1255,6 +1255,10 @@ func asBool(o Object) Boolean {
 //@ ensures [C02.cvx.underflow] old(depth(intp)) < 1 ==> isPSErr(result, eStackunderflow) && depth(intp) == old(depth(intp))
 //@ ensures [C02.cvx.array] old(depth(intp)) >= 1 && isType(old(top(intp, 0)), Array) ==> result == nil && depth(intp) == old(depth(intp)) && stackFrame(intp, 1) && isType(top(intp, 0), Procedure) && len(top(intp, 0).(Procedure)) == old(len(top(intp, 0).(Array))) && (forall j :: 0 <= j && j < len(top(intp, 0).(Procedure)) ==> top(intp, 0).(Procedure)[j] == old(top(intp, 0).(Array)[j]))
 //@ ensures [C02.cvx.other] old(depth(intp)) >= 1 && !isType(old(top(intp, 0)), Array) ==> result == nil && depth(intp) == old(depth(intp)) && stackFrame(intp, 0)
+// currentfile pushes one object (the file stand-in of this implementation, the
+// null object) and leaves the operands below it untouched.
+//@ func bCurrentfile
+//@ ensures [C02.currentfile] result == nil && depth(intp) == old(depth(intp)) + 1 && top(intp, 0) == nil && stackFrame(intp, 0)
 
 // C07: ReadCMap returns a CMap dictionary from the file's CMap directory, and
 // the dictionary it returns carries a CMapName entry; without any CMap in the
